@@ -250,6 +250,9 @@ class MachineVariables(LogMixin):
         except KeyError:
             pass
         else:
+            # templates and handlers which read this variable have to learn that it is gone
+            self.machine.events.post('machine_var_' + name, value=None, prev_value=prev_value, change=True)
+
             if self.machine_var_monitor:
                 for callback in self.machine.monitors['machine_vars']:
                     callback(name=name, value=None,
